@@ -133,6 +133,21 @@ def make_alpha_tasks(cfgs, name, alpha, depth, k):
     return tasks
 
 
+def make_reopen_tasks(cfgs, depth_after, profile='reopen'):
+    """For each configuration and each base history of ops.reopen_bases: base . REOPEN . (every history of depth <= depth_after)."""
+    tasks = []
+    for cfg in cfgs:
+        for name, base in ops.reopen_bases(cfg):
+            root = base + [[['REOPEN', {}]]]
+            alpha = lambda m, p=profile: ops.sigma1(m, p)
+            m = explore.model_of(cfg, root)
+            first = alpha(m)
+            tasks.append({'cfg': cfg, 'profile': profile, 'depth': len(root), 'shallow': [root], 'base': name})
+            for step, m2 in first:
+                tasks.append({'cfg': cfg, 'profile': profile, 'depth': len(root) + depth_after, 'root': root + [step], 'base': name})
+    return tasks
+
+
 def make_chain_tasks(cfgs, tier):
     tasks = []
     for cfg in cfgs:
@@ -195,7 +210,13 @@ def oracle_roundtrip(ctx, res):
                  'msg': 'open/walk/read of the written image raised %s: %s' % (t, str(e)[:300])}]
     exp, dyn, bit = resolve_expected(ctx.model)
     if ctx.model.relocation_possible():
+        # the physical ISO9660 view of relocated directories is an implementation artefact; the relocation
+        # directory itself is the one extra entry the Rock Ridge view may show
         exp.pop('iso', None)
+        moved = '/' + (ctx.model.rr_moved[1] if ctx.model.rr_moved else 'rr_moved')
+        if 'rr' in obs and moved in obs['rr'] and moved not in exp.get('rr', {}) and obs['rr'][moved][0] == 'dir':
+            obs = dict(obs)
+            obs['rr'] = dict((p, v) for p, v in obs['rr'].items() if p != moved)
     diffs = compare(obs, exp, dyn, bit)
     if diffs:
         cls = diffs[0].split(' ')[0].split(':')[0] + ':' + ' '.join(diffs[0].split(' ')[1:3])
